@@ -31,6 +31,9 @@ def rat(x):
 
 
 class UU(Model):
+    def truth(self):
+        return True          # a pint Unit object is always truthy (no __bool__/__len__)
+
     kinds = ("Unit",)
 
     def __init__(self, mono):
@@ -327,6 +330,9 @@ class UFunc(Model):
         elif name in PRED:
             res = (PRED[name], vals[0] - vals[1])
             dtype = "bool"
+        elif name in ("abs", "absolute", "fabs") and len(vals) == 1:
+            res = rat(Poly.sym(Fn("abs", repr(vals[0]))))       # |x|: another value than x (x may be negative)
+            dtype = "float64"
         else:
             raise Unsupported("np.%s is not in the model" % name)
         out = kwargs.get("out")
@@ -416,7 +422,7 @@ class AFunc(Model):
 
 def stack_hooks(tree):
     hk = {"ext": {}, "globals": {}, "class": {}, "pkgfunc": {}}
-    for name in list(NUMERIC) + list(PRED) + ["power", "reciprocal", "sqrt", "square", "logical_not", "logical_and"]:
+    for name in list(NUMERIC) + list(PRED) + ["power", "reciprocal", "sqrt", "square", "logical_not", "logical_and", "abs", "absolute", "fabs"]:
         hk["ext"]["numpy." + name] = UFunc(name, tree, hk)
     for name in ("cumsum", "sum"):
         hk["ext"]["numpy." + name] = AFunc(name, tree, hk)
@@ -528,6 +534,36 @@ def check_inplace_stack(run, tree):
                        "v op= q rescales the caller's Quantity/Array in place (its buffer is shared with the wrapper built for the conversion), so the second v op= q adds another amount")
             except ERR as e:
                 run.unresolved(construct, vfi.where(), "cannot fold: %s" % e)
+
+
+def check_inplace_mixed_stack(run, tree):
+    """Array on the left, Vector on the right: `a op= v` cannot update a in place (the result has components); the data model then binds
+    a to a op v, which Vector.__rop__ computes - the name must end up holding the Vector, not the unchanged Array"""
+    import ast as _ast
+    fi = tree.func("core/array.py::_binary_op")
+    vfi = tree.func("core/vector.py::_binary_op")
+    OPS = (("+=", _ast.Add, "cm", lambda pa, pb: pa + pb), ("-=", _ast.Sub, "cm", lambda pa, pb: pa - pb), ("*=", _ast.Mult, "s", lambda pa, pb: pa * pb), ("/=", _ast.Div, "s", lambda pa, pb: pa / pb))
+    for sym, op, ub, want in OPS:
+        construct = "core/array.py::Array[a [m] %s v (Vector [%s])]" % (sym, ub)
+        try:
+            hk = stack_hooks(tree)
+            a, v = arr(tree, hk, "A", "m"), vec(tree, hk, "V", ub)
+            pa = phys(a)
+            pv = {c: phys(x) for c, x in comps_of(tree, hk, v).items()}
+            ev = ModelEval(tree, fi, {}, hk)
+            try:
+                r = ev.aug_op(None, op(), a, v)
+                if isinstance(r, PyObj) and r._cls.qual == VECTOR_Q:
+                    got = {c: phys(x) for c, x in comps_of(tree, hk, r).items()}
+                    ok = all(got[c] == want(pa, pv[c]) for c in pv) and phys(a) == pa
+                    detail = "a is bound to a Vector denoting %r (required %r)" % (got, {c: want(pa, pv[c]) for c in pv})
+                else:
+                    ok, detail = False, "a is bound to %s (required the Vector a %s v)" % ("the unchanged Array" if r is a else repr(r), sym[0])
+            except (Raised, ProgramRaised) as e:
+                ok, detail = False, "raises %s" % e
+            run.ob(construct, ok, fi.where(), detail, "a %s v with a Vector on the right silently leaves a unchanged (the in-place method swallows NotImplemented)" % sym)
+        except ERR as e:
+            run.unresolved(construct, fi.where(), "cannot fold: %s" % e)
 
 
 def phys(a):
@@ -810,6 +846,23 @@ def check_to_stack(run, tree, only=None):
                 run.violated(construct, to.where(), "raises %s" % e, "x.to(%s)" % u1)
             except ERR as e:
                 run.unresolved(construct, to.where(), "cannot fold: %s" % e)
+    # spellings of the target that are falsy / unusual python values: "" is a spelling of dimensionless
+    for label, u0, u1, want in (('percent -> "" (the empty spelling of dimensionless)', "percent", "", "converted"), ('m -> ""', "m", "", "raises DimensionalityError"),
+                                ("rad -> dimensionless", "rad", "dimensionless", "converted")) if only is None else ():
+        construct = "%s.to[%s]" % (ARRAY_Q, label)
+        try:
+            hk = stack_hooks(tree)
+            a = arr(tree, hk, "A", u0)
+            pa = phys(a)
+            try:
+                r = ModelEval(tree, to, {}, hk).invoke(to, [a, u1], {}, None)
+                got = "converted" if isinstance(r, PyObj) and phys(r) == pa and r._attrs.get("_unit") == UU.parse(u1) else "returns %r labelled %r" % (phys(r) if isinstance(r, PyObj) else r, r._attrs.get("_unit") if isinstance(r, PyObj) else None)
+            except (Raised, ProgramRaised) as e:
+                got = "raises " + getattr(e, "name", str(e))
+            run.ob(construct, got == want and phys(a) == pa, to.where(), "%s (required: %s)" % (got, want),
+                   'x.to("") returns x unconverted (an empty target taken for "no target"): percent stays percent, a length is accepted as dimensionless')
+        except ERR as e:
+            run.unresolved(construct, to.where(), "cannot fold: %s" % e)
     # equal size, different unit (ratio exactly 1): k_deg := k_rad is not available symbolically; use an alias base with the same scale
     construct = ARRAY_Q + ".to[history: convert, change the buffer in place, convert again]"
     try:
@@ -1469,3 +1522,29 @@ def check_group_equality_history(run, tree):
             run.violated(construct, eq.where(), "raises %s" % e, "Datagroup equality across units")
         except ERR as e:
             run.unresolved(construct, eq.where(), "cannot fold: %s" % e)
+
+
+def check_array_norm_identity(run, tree):
+    """Array.norm is the Array itself (plots send every layer, coordinate and weight through .norm so that Vectors are reduced to their
+    magnitude): a scalar quantity must come out with its sign and its unit"""
+    ci = tree.cls(ARRAY_Q)
+    construct = ARRAY_Q + ".norm[scalar quantity]"
+    try:
+        hk = stack_hooks(tree)
+        a = arr(tree, hk, "A", "m")
+        a._attrs["name"] = "density" if "name" in a._attrs else a._attrs.get("name")
+        m = tree.method(ci, "norm")
+        if m is None:
+            run.violated(construct, ci.module.rel, "Array.norm is not defined", "map/histogram layers of Arrays")
+            return
+        run.analysed(m)
+        pa = phys(a)
+        try:
+            r = ModelEval(tree, m, {}, hk).obj_getattr(a, "norm")
+            ok = isinstance(r, PyObj) and phys(r) == pa and r._attrs.get("_unit") == a._attrs.get("_unit") and phys(a) == pa
+            detail = "a.norm denotes %r labelled %r (required %r, m)" % (phys(r) if isinstance(r, PyObj) else r, r._attrs.get("_unit") if isinstance(r, PyObj) else None, pa)
+        except (Raised, ProgramRaised) as e:
+            ok, detail = False, "raises %s" % e
+        run.ob(construct, ok, m.where(), detail, "a scalar layer with negative values (a velocity component, a potential) is mapped as its absolute value")
+    except ERR as e:
+        run.unresolved(construct, ARRAY_Q, "cannot fold: %s" % e)
